@@ -443,6 +443,14 @@ impl World {
         self.cam().ca_child_update(&parent_h, child_h, req, &self.actor, &self.rt).map_err(|e| e.to_string())
     }
 
+    /// the parent registers the identity certificate the child uses now
+    pub fn child_id_sync(&self, parent: &str, child: &str) -> OpRes {
+        let child_h = CaHandle::from_str(child).map_err(|e| e.to_string())?;
+        let ca = self.cam().get_ca(&child_h).map_err(|e| e.to_string())?;
+        let id_cert = ca.child_request().validate().map_err(|e| format!("child req: {e}"))?;
+        self.child_update(parent, child, UpdateChildRequest::id_cert(id_cert))
+    }
+
     pub fn child_remove(&self, parent: &str, child: &str) -> OpRes {
         let parent_h = CaHandle::from_str(parent).map_err(|e| e.to_string())?;
         let child_h = ChildHandle::from_str(child).map_err(|e| e.to_string())?;
